@@ -55,6 +55,11 @@ def rules(ctx, repo, m, meths):
     ctx.rule('R04f', 'the input is NFC-normalised before the loop', 1)
     ctx.rule('R04g', 'the module-level cache of encoder objects is keyed by every option the cached '
                      'encoder is built from', 1)
+    ctx.rule('R04j', 'an explicitly empty option (conversion_rules=[]) is not replaced by the default: no '
+                     '`param or <non-empty default>` on a parameter whose "not given" value is None', 1)
+    ctx.rule('R04i', 'the state of the conversion loop (position, output) is created afresh by every '
+                     'call of unicode_to_latex(); it is not kept on the encoder or at module level '
+                     '(rule callables may re-enter the encoder)', 1)
     ctx.rule('R04h', 'regex rules are matched at the position inside the full string (rx.match(s, '
                      'pos)), so that look-behind, \\b and ^ see the real context', 1)
 
@@ -316,6 +321,55 @@ def rules(ctx, repo, m, meths):
     ok = len(wh) == 1 and unparse(wh[0].test).replace(' ', '') == 'p.pos<len(s)'
     ctx.decide('R04b', ok, m, wh[0] if wh else u2l, 'loop runs while p.pos < len(s)',
                'the main loop is not `while p.pos < len(s)`', construct='main loop header')
+
+    # ------------------------------------------------------------ R04j
+    n_or = 0
+    for mod_ in repo.modules.values():
+        if not mod_.name.startswith('pylatexenc.latexencode') or 'uni2latexmap' in mod_.name:
+            continue
+        for q_, f_ in mod_.functions.items():
+            a_ = f_.args
+            pos_ = a_.args
+            nd = {p_.arg for p_, d_ in zip(pos_[len(pos_) - len(a_.defaults):], a_.defaults)
+                  if isinstance(d_, ast.Constant) and d_.value is None}
+            nd |= {p_.arg for p_, d_ in zip(a_.kwonlyargs, a_.kw_defaults)
+                   if isinstance(d_, ast.Constant) and d_.value is None}
+            for b_ in iter_own(f_):
+                if isinstance(b_, ast.BoolOp) and isinstance(b_.op, ast.Or) and len(b_.values) == 2 and \
+                        isinstance(b_.values[0], ast.Name) and b_.values[0].id in nd:
+                    lit = b_.values[1]
+                    nonempty = (isinstance(lit, (ast.List, ast.Tuple, ast.Set)) and lit.elts) or \
+                        (isinstance(lit, ast.Dict) and lit.keys) or \
+                        (isinstance(lit, ast.Constant) and isinstance(lit.value, str) and lit.value)
+                    if nonempty:
+                        n_or += 1
+                        ctx.refuted('R04j', mod_, b_, '`%s` replaces an explicitly given EMPTY %s by the default %s '
+                                    '(only None means "not given"): e.g. conversion_rules=[] -- no rules at all -- '
+                                    'silently becomes the built-in defaults, so the output is no longer what the '
+                                    'given rule list specifies' % (short(b_), b_.values[0].id, short(lit)),
+                                    construct='%s: %s' % (q_, short(b_)))
+    ctx.holds('R04j', m, None, 'no `<None-default parameter> or <non-empty literal>` in the encoder package',
+              construct='empty-versus-None scan', trivial=True)
+
+    # ------------------------------------------------------------ R04i
+    # the loop state (position, output so far) belongs to one call: callable rules receive the
+    # encoder (u2lobj) and may call unicode_to_latex() again while a call is in progress
+    rec = unparse(wh0.test.left).rsplit('.', 1)[0] if wh0 is not None and isinstance(wh0.test, ast.Compare) else None
+    binds = [s_ for s_ in iter_own(u2l) if isinstance(s_, ast.Assign) and any(
+        isinstance(t_, ast.Name) and t_.id == rec for t_ in s_.targets)] if rec else []
+    if not binds:
+        ctx.unknown('R04i', m, u2l, 'loop state record not found', construct='loop state record')
+    for b in binds:
+        v = b.value
+        fresh = isinstance(v, ast.Call) and isinstance(v.func, ast.Name) and (
+            any(isinstance(c_, ast.ClassDef) and c_.name == v.func.id for c_ in ast.walk(u2l)) or
+            any(isinstance(c_, ast.ClassDef) and c_.name == v.func.id for c_ in m.tree.body) or
+            v.func.id in ('dict', 'SimpleNamespace', 'object'))
+        ctx.decide('R04i', fresh, m, b, 'the loop state is a fresh object per call',
+                   'the loop state %s is %s, an object that outlives the call: a callable rule that uses its '
+                   'encoder argument to encode a sub-string re-enters unicode_to_latex() and overwrites '
+                   'the position and output of the call in progress; two threads sharing an encoder '
+                   'corrupt each other' % (rec, short(v)), construct='loop state record: ' + short(b, 60))
 
     # ------------------------------------------------------------ R04c
     rp = ar.args.args[4].arg if len(ar.args.args) > 4 else 'ruleobj'
